@@ -154,6 +154,16 @@ def run_attr_history(ctx, route, declared, ty, hist, sps):
         if inst is None:
             inst = m.new('Thng', Keep=keep)
             cell = 0 if ty == 'INTEGER' else ''
+        if op == 'read':
+            # a read (or an equality filter) under some spelling between the writes must not leave a trace
+            try:
+                getattr(inst, sp)
+            except AttributeError:
+                pass
+            if cell is not DELETED and n % 2:
+                import xtuml
+                m.select_many('Thng', xtuml.where_eq(**{sp: cell}))
+            continue
         if op == 'write':
             v = fresh()
             setattr(inst, sp, v)
@@ -452,6 +462,7 @@ def run(ctx):
         sps = spellings(declared)
         # all histories of <= 3 operations over {write, delete} x spellings, ctor as optional first op
         ops = [('write', sp) for sp in sps] + [('delete', sp) for sp in sps]
+        reads = [('read', sp) for sp in sps]
         ctor = [('ctor', sp) for sp in sps]
         if len(declared) <= 3:
             for L in (1, 2, 3):
@@ -460,6 +471,12 @@ def run(ctx):
                 for first in ctor:
                     for hist in itertools.product(ops, repeat=L - 1):
                         jobs.append((declared, ty, (first,) + hist))
+            # reads in between: read-write, write-read-write, write-read-delete, ctor-read-write
+            w_ = [('write', sp) for sp in sps]
+            d_ = [('delete', sp) for sp in sps]
+            for hist in itertools.chain(itertools.product(reads, w_), itertools.product(w_, reads, w_),
+                                        itertools.product(w_, reads, d_), itertools.product(ctor, reads, w_)):
+                jobs.append((declared, ty, hist))
         else:
             w = [('write', sp) for sp in sps]
             d = [('delete', sp) for sp in sps]
@@ -470,6 +487,10 @@ def run(ctx):
             for hist in itertools.product(w, d, w):
                 jobs.append((declared, ty, hist))
             for hist in itertools.product(w, d, d):
+                jobs.append((declared, ty, hist))
+            for hist in itertools.product(reads, w):
+                jobs.append((declared, ty, hist))
+            for hist in itertools.product(w, reads, w):
                 jobs.append((declared, ty, hist))
             for L in (1, 2):
                 for hist in itertools.product(ops, repeat=L):
